@@ -136,6 +136,16 @@ CLAIMED.update({
             "The model contributes no verdict beyond the alphabet; 2-3 concrete strings per hostile class; container corruption at "
             "every 64th byte (thorough: 16th); hostile data cells in delimited and fixed form.",
             "DESIGN.md section 5, C10"),
+    "C15": ("TLA+ spec Ods.tla (ODF encoder with every optional feature on/off + decoder machine of ods_rows): TLC exhaustive over "
+            "tables x 32 feature subsets x sheets within bounds, simulation for larger tables; every document tree is serialised by "
+            "an independent ODF writer and read through rowio.ods_rows and cutplace.rows; malformed files enumerated by the harness",
+            "TLC checks ReadsTheLogicalTable (Decode(Encode(t, f)) = t) and MissingSheetIsRefused; each behaviour's tree is written "
+            "to a real .ods and read back; not-a-zip, missing content.xml, content.xml cut at every tag boundary, invalid repeat "
+            "counts and truncated archives must give DataFormatError. Known findings D4b / D4c (row repeats ignored) are "
+            "reproduced by the ExpandRowRepeats = FALSE configuration.",
+            "Bounds: alphabet {a, b, blank, tab, line break, XML-special, non-ASCII}; exhaustive 2x2 tables of 1-character cells and "
+            "single cells of <= 3 characters x all 32 feature subsets; simulation up to 6 rows x 8 cells; the ODF writer is trusted.",
+            "DESIGN.md section 5, C15"),
 })
 
 NOT_BUILT = "check not built yet in this round (planned: see DESIGN.md section 5)"
